@@ -2,5 +2,52 @@
 
 package wsutil
 
-func vPrepare()     {}
-func vPoisonPools() {}
+import (
+	"io"
+	"runtime/debug"
+
+	"github.com/gobwas/pool/pbufio"
+	"github.com/gobwas/pool/pbytes"
+)
+
+func vPrepare() { debug.SetGCPercent(-1) }
+
+type vScribble struct{}
+
+func (vScribble) Read(p []byte) (int, error) {
+	for i := range p {
+		p[i] = 0xA5
+	}
+	return len(p), nil
+}
+
+// vPoisonPools (native side): recycle every size class of the library's byte and bufio pools
+// and overwrite the recycled memory.  Under the engine the call is intercepted: the content of
+// every buffer that was returned to a pool becomes arbitrary.
+func vPoisonPools() {
+	for size := 128; size <= 65536; size <<= 1 {
+		var held [][]byte
+		for i := 0; i < 4; i++ {
+			b := pbytes.GetLen(size)
+			for j := range b {
+				b[j] = 0xA5
+			}
+			held = append(held, b)
+		}
+		for _, b := range held {
+			pbytes.Put(b)
+		}
+	}
+	for size := 256; size <= 65536; size <<= 1 {
+		r := pbufio.GetReader(vScribble{}, size)
+		r.Peek(size)
+		pbufio.PutReader(r)
+		w := pbufio.GetWriter(io.Discard, size)
+		buf := make([]byte, size-1)
+		for j := range buf {
+			buf[j] = 0xA5
+		}
+		w.Write(buf)
+		pbufio.PutWriter(w)
+	}
+}
